@@ -1198,6 +1198,9 @@ class t2grid(object):
                     if orignames in self.connection:
                         con = self.connection[orignames]
                         con.block = con.block[::-1]
+                        con.distance = con.distance[::-1]
+                        if con.dircos: con.dircos = -con.dircos
+                        con.nad1, con.nad2 = con.nad2, con.nad1
                         for blk in con.block:
                             blk.connection_name.remove(orignames)
                             blk.connection_name.add(names)
